@@ -355,6 +355,9 @@ func main() {
 	for _, v := range rtVals(hx.NewRng(0)) {
 		gt.add(reflect.TypeOf(v))
 	}
+	for _, t := range wrapTargets {
+		gt.add(reflect.TypeOf(t.mk()).Elem())
+	}
 	cc := hx.NewCasesNamed(a.Out, "codec", "From V.C08 Require Import Model Typed Codec Desc Harness.\nFrom V.Base Require Import Hex.\n"+gt.prelude(), "ccase", "check_codec", ccShard)
 
 	// purity: type-cache first-use orders and failure histories, in fresh child processes
@@ -679,6 +682,7 @@ func main() {
 			}
 		}
 	}
+	wrapTier(a, rng.Fork(), res, cc, gt)
 	t0 := time.Now()
 	sizeTier(a, res)
 	res.Note(fmt.Sprintf("size-boundary family (implementation only, payloads up to 16 MiB): %d ms", time.Since(t0).Milliseconds()))
